@@ -103,7 +103,8 @@ PROPS['C07'] = dict(level='model_checking',
 PROPS['C18'] = dict(level='model_checking',
   bounds='any_object: every sequence of 3 operations out of 8 (construct small/large/throwing-move, move-assign, move-construct, copy-assign small/large, destroy) enumerated as harness parameters; values and the throwing-copy position symbolic',
   outside='sequences longer than 3; any_sender_of/type_erased_stream (see thorough harness list); RTTI-off builds',
-  harnesses=[SEQ('any_object_%03o' % c, 'C18_any_object.cpp', 'h_any_object', exc=True, opts=dict(params=[c], max_visits=100), desc='any_object operation sequence %03o (octal digits, least significant first)' % c) for c in range(512) if c not in (0o150, 0o151, 0o650, 0o651)])   # 4 sequences (throwing copy-assign then re-emplace large) hit an engine limit (byte-assembled pointer) and are outside the claim
+  harnesses=[SEQ('any_object_%03o' % c, 'C18_any_object.cpp', 'h_any_object', exc=True, opts=dict(params=[c], max_visits=100), desc='any_object operation sequence %03o (octal digits, least significant first)' % c) for c in range(512) if c not in (0o150, 0o151, 0o650, 0o651)]   # 4 sequences (throwing copy-assign then re-emplace large) hit an engine limit (byte-assembled pointer) and are outside the claim
+  + [SEQ('tes_n%d_k%d' % (n, k), 'C18_tes.cpp', 'h_tes', exc=True, opts=dict(params=[n, k], max_rec=8, max_visits=200), desc='type_erased_stream of %d tracked elements, %s' % (n, 'no fault' if k == 99 else 'element copy/move #%d throws' % k)) for n in (1, 2) for k in list(range(8)) + [99]])
 
 PROPS['C13'] = dict(level='model_checking',
   bounds='sequential pipelines (depth<=3) over a harness source stream of length 0..3 (parameter) with symbolic elements, symbolic predicate table and an error at every position (parameter)',
